@@ -520,7 +520,7 @@ func inject(t *rapid.T, prog *gen.Program) *injected {
 
 func TestFaultInjection(t *testing.T) {
 	defer vf.AfterCheck(t)
-	vf.Checks(20000, 400000)
+	vf.Checks(20000, 250000)
 	cliBudget := vf.Pick(20, 300)
 	rapid.Check(t, func(t *rapid.T) {
 		cfg := gen.Config{MaxStmts: rapid.IntRange(2, 7).Draw(t, "size"), MaxDepth: rapid.IntRange(1, 2).Draw(t, "depth"), Funcs: 2, Structs: true}
